@@ -332,3 +332,48 @@ pub fn run(a: &Args) -> Acc {
     let n = a.n(3000, 50000);
     par_run(a, "c07", n, |a, idx, acc| run_case(a, "c07", idx, acc))
 }
+
+
+/// OS-boundary monitor (thorough tier, run under `strace -f -e trace=%file`): single-threaded physical workload
+/// whose library calls are bracketed by marker syscalls (`access("/VERIF-MARK-BEGIN")` / `...-END`); the driver
+/// checks that every path-taking syscall inside a window names a path inside the PhysicalFS root directory.
+pub fn run_strace_workload(a: &Args) -> Acc {
+    let mut acc = Acc::new();
+    let n = a.n(150, 600);
+    let mark = |name: &str| {
+        let _ = std::fs::metadata(format!("/VERIF-MARK-{}", name));
+    };
+    for idx in 0..n {
+        let mut rng = Rng::derive(a.seed, "c07-strace", idx);
+        let universe = Universe::generate(&mut rng);
+        let cfg = if rng.chance(1, 2) { Cfg::Phys } else { Cfg::Alt(Box::new(Cfg::Phys), rng.pick(BASES).to_string()) };
+        let b = build(&cfg);
+        // tell the driver which directory is the root of this history
+        let rootdir = b.nodes.iter().find_map(|n| n.phys_dir.clone()).unwrap().join("root");
+        let _ = std::fs::metadata(format!("/VERIF-ROOT{}", rootdir.display()));
+        let mut domain = Domain::untyped();
+        domain.weights.retain(|w| w.0 != "set_time");
+        let probe = universe.paths.clone();
+        let mut tree = snapshot(&b.root, &probe, 4096).tree();
+        acc.evaluations += 1;
+        for _ in 0..rng.range(6, 14) {
+            let op = gen_op(&mut rng, &domain, &universe, &tree);
+            let rng_cell = std::cell::RefCell::new(&mut rng);
+            mark("BEGIN");
+            let _ = exec_via(&|q: &str| hostile_path(&b.root, q, &universe, &mut rng_cell.borrow_mut()).0, &op);
+            mark("END");
+            acc.steps += 1;
+            mark("BEGIN");
+            let s = snapshot(&b.root, &probe, 4096);
+            if idx == 3 && std::env::var("VERIF_STRACE_SELFTEST").is_ok() {
+                // monitor self-test: an access outside the root inside a window must be reported by the parser
+                let _ = std::fs::metadata(rootdir.parent().unwrap().join("outside.txt"));
+            }
+            mark("END");
+            acc.fingerprints.insert(s.fingerprint());
+            tree = s.tree();
+        }
+    }
+    acc.sample(0, J::s("physical / altroot-over-physical histories with hostile join expressions, library calls bracketed by marker syscalls for the strace parser"));
+    acc
+}
